@@ -850,14 +850,14 @@ def c02_run(p):
 
 
 def c16_params(budget):
-    for name in ('C01', 'C08', 'C09', 'C10', 'C07'):
+    for name in ('C01', 'C08', 'C09', 'C10', 'C07', 'C15', 'C12', 'C05', 'C03', 'C13', 'C11'):
         gen = PROPS[name][0]
         seen = 0
         for p in gen(budget):
             if p.get('twin') != 'sync':
                 continue
             seen += 1
-            if budget == 'quick' and seen % 4:
+            if budget == 'quick' and name not in ('C12', 'C15') and seen % (4 if name in ('C01', 'C08', 'C09', 'C10', 'C07') else 3):
                 continue
             yield {'of': name, 'p': p}
 
@@ -866,11 +866,14 @@ def c16_run(p):
     """The same scenario through both twins: identical host packet logs and identical outcomes (values / exception types)."""
     out = []
     run = PROPS[p['of']][1]
+    from sim import harness
     logs = {}
     fails = {}
+    outcomes = {}
     for twin in ('sync', 'async'):
         q = dict(p['p'], twin=twin)
         captured = []
+        del harness.OUTCOMES[:]
         orig_init = adbd.Adbd.__init__
 
         def init(self, *a, **kw):
@@ -882,6 +885,10 @@ def c16_run(p):
         finally:
             adbd.Adbd.__init__ = orig_init
         logs[twin] = [d.log for d in captured]
+        outcomes[twin] = [o if o[0] == 'exc' else ('ok', o[1].replace('Async', '')) for o in harness.OUTCOMES]
+    if outcomes['sync'] != outcomes['async']:
+        k = next((i for i, (a, b) in enumerate(zip(outcomes['sync'], outcomes['async'])) if a != b), min(len(outcomes['sync']), len(outcomes['async'])))
+        out.append(fail(p, 'the twins must return the same values / raise the same exception types', str(outcomes['sync'][k:k + 1])[:300], str(outcomes['async'][k:k + 1])[:300]))
     if logs['sync'] != logs['async']:
         out.append(fail(p, 'the async twin must send byte-for-byte the same packets as the sync twin', 'equal host packet logs',
                         'first difference at packet %s' % next((i for i, (a, b) in enumerate(zip(sum(logs['sync'], []), sum(logs['async'], []))) if a != b), 'length')))
@@ -899,3 +906,6 @@ PROPS = {
 PROPS['C16'] = (c16_params, c16_run)
 # C04's monitor runs inside the scenarios of these properties
 ALSO = {'C04': ['C01', 'C07', 'C08', 'C09', 'C10'], 'C02': ['C01', 'C07'], 'C06': ['C01', 'C19']}
+
+
+from sim import scenarios_ext      # noqa: E402,F401  (registers C17, C18, C20)
